@@ -80,3 +80,19 @@ Proof.
   exact (all_outputs_exact St phi bump init H0 true (merge spk) ops (merge_sorted spk) Hn).
 Qed.
 Print Assumptions c13_analytic.
+
+(* non-vacuity of c13_precise: a concrete precise-mode run (two numeric variables, one spike at t = 3 on the first, the
+   stepper answering at 3 and 20) is accepted by [integrate], ends exactly at the requested duration and has applied
+   exactly that spike *)
+From OdeVerif Require Import Model.MixedIntExec.
+Example c13_precise_example :
+  let c := {| mBounds := [(None, None, Q2Qc (0 # 1)); (None, None, Q2Qc (4 # 1))]; mIncs := [Q2Qc (0 # 1); Q2Qc (4 # 1)];
+              mAlias := false; mSim := 20%Z; mMaxStep := 32%Z; mSpk := [(0%nat, [3%Z])]; mInit := [Q2Qc (0 # 1); Q2Qc (4 # 1)];
+              mAnswers := [(3%Z, [Q2Qc (3 # 8); Q2Qc (61 # 16)]); (20%Z, [Q2Qc (5 # 2); Q2Qc (11 # 4)])];
+              mObsT := []; mObsY := []; mObsCrossed := false |} in
+  exists sf, run_case c = Done _ sf /\ m_t _ sf = 20%Z /\ List.length (m_applied _ sf) = 1%nat
+             /\ ev_sorted (merge (mSpk c)) /\ Forall (fun e => (0 < fst e)%Z) (merge (mSpk c)).
+Proof.
+  cbn zeta. eexists. split; [vm_compute; reflexivity|]. split; [reflexivity|]. split; [reflexivity|].
+  split; [exact (merge_sorted _)|]. vm_compute. repeat constructor.
+Qed.
